@@ -54,6 +54,17 @@ class Cube(Obj):
             c = Cube([[list(self.data[i][j]) for j in cols] for i in rows])
             c.as_matrix = True
             return c
+        mask = idx[0] if isinstance(idx, tuple) and idx and isinstance(idx[0], Mat) and type(idx[0]) is Mat else \
+            (idx if isinstance(idx, Mat) and type(idx) is Mat else None)
+        if mask is not None and (not isinstance(idx, tuple) or len(idx) in (1, 2)):
+            # boolean n x m mask: the selected cells in row-major order (a copy); with a slot, that slot of each
+            cells = self._mask_cells(mask, node)
+            if isinstance(idx, tuple) and len(idx) == 2:
+                k = idx[1]
+                if not (isinstance(k, int) and not isinstance(k, bool) and -3 <= k < 3):
+                    raise Unsupported(f"cube index {idx!r}", node)
+                return Vec([self.data[i][j][k] for i, j in cells])
+            return Mat([list(self.data[i][j]) for i, j in cells])
         if isinstance(idx, int) and not isinstance(idx, bool):
             if not 0 <= idx < self.n:
                 raise Unsupported("cube row out of range", node)
@@ -67,6 +78,60 @@ class Cube(Obj):
             return Vec.view(v) if isinstance(v, list) else v
         raise Unsupported(f"cube index {idx!r}", node)
 
+
+
+    def _mask_cells(self, mask, node):
+        from .abseval import AbsRaise
+        if len(mask.rows) != self.n or any(len(r) != self.m for r in mask.rows):
+            raise AbsRaise("IndexError", node)      # boolean index did not match the indexed array
+        if not all(x is True or x is False for r in mask.rows for x in r):
+            raise Unsupported("cube indexed by a non-boolean matrix", node)
+        return [(i, j) for i, r in enumerate(mask.rows) for j, x in enumerate(r) if x]
+
+    def abs_setitem(self, idx, op, value, ev, stmt):
+        """cube[:, :, k] op= matrix | scalar ; cube[i, j, k] op= scalar ; cube[mask, k] op= values"""
+        from .abseval import _arith, AUG_BINOP, AbsRaise, IndexOut
+
+        def put(i, j, k, v):
+            self.data[i][j][k] = v if op == "=" else _arith(AUG_BINOP[op], self.data[i][j][k], v, stmt)
+        if isinstance(idx, tuple) and len(idx) == 3 and idx[0] == slice(None) and idx[1] == slice(None) \
+                and isinstance(idx[2], int) and not isinstance(idx[2], bool) and -3 <= idx[2] < 3:
+            k = idx[2]
+            if isinstance(value, Mat) and type(value) is Mat:
+                rows = value.rows
+                if len(rows) == 1 and self.n != 1:
+                    rows = rows * self.n
+                if len(rows) != self.n or any(len(r) not in (self.m, 1) for r in rows):
+                    raise AbsRaise("ValueError", stmt)      # could not broadcast
+                news = [[(rows[i][j] if len(rows[i]) == self.m else rows[i][0]) for j in range(self.m)] for i in range(self.n)]
+            elif isinstance(value, (Vec, list)):
+                vals = value.vals if isinstance(value, Vec) else value
+                if len(vals) != self.m:
+                    raise AbsRaise("ValueError", stmt)
+                news = [list(vals) for _ in range(self.n)]
+            else:
+                news = [[value] * self.m for _ in range(self.n)]
+            for i in range(self.n):
+                for j in range(self.m):
+                    put(i, j, k, news[i][j])
+            return
+        if isinstance(idx, tuple) and len(idx) == 3 and all(isinstance(x, int) and not isinstance(x, bool) for x in idx):
+            i, j, k = idx
+            if not (0 <= i < self.n and 0 <= j < self.m and -3 <= k < 3):
+                raise IndexOut(idx, self.n, stmt)
+            put(i, j, k, value)
+            return
+        if isinstance(idx, tuple) and len(idx) == 2 and isinstance(idx[0], Mat) and type(idx[0]) is Mat \
+                and isinstance(idx[1], int) and not isinstance(idx[1], bool):
+            cells = self._mask_cells(idx[0], stmt)
+            vals = value.vals if isinstance(value, Vec) else (list(value) if isinstance(value, (list, tuple)) else [value] * len(cells))
+            if len(vals) != len(cells):
+                raise AbsRaise("ValueError", stmt)
+            news = [v if op == "=" else _arith(AUG_BINOP[op], self.data[i][j][idx[1]], v, stmt) for (i, j), v in zip(cells, vals)]
+            for (i, j), v in zip(cells, news):
+                self.data[i][j][idx[1]] = v
+            return
+        raise Unsupported(f"store into a cube with index {idx!r}", stmt)
 
 
 class GraphObj(Obj):
